@@ -474,13 +474,37 @@ def forwardTargets (table : Table) (clas sent : List Nat) (dest : Dest) : Decisi
 chosen senders reported success. -/
 def released (d : Decision) (anyOk : Bool) : Bool := anyOk && d.delete
 
-/-- A history of forwarding attempts of one broadcast bundle: each attempt sees the then connected
-senders; the sent list is persisted in between. Returns all transmissions, in order. -/
-def broadcastHistory (sent : List Nat) : List (List Nat) → List Nat
+/-- `DTLSR.ReportFailure` for a broadcast bundle: the peer whose transmission failed is removed
+from the bundle's sent list (first occurrence), so that the next forwarding run offers it again.
+For other bundles it does nothing. -/
+def reportFailure (sent : List Nat) (p : Nat) : List Nat := sent.erase p
+
+/-- One forwarding run of a broadcast bundle: `SenderForBundle` chooses the connected peers that
+are not in the sent list and records them; every chosen peer whose transmission fails
+(`fails`) is taken out again by `ReportFailure`. Returns the peers the bundle was handed to and
+the sent list afterwards. -/
+def broadcastAttempt (sent clas fails : List Nat) : List Nat × List Nat :=
+  let r := filterCLAs sent clas
+  (r.1, (r.1.filter fails.contains).foldl reportFailure r.2)
+
+/-- A history of forwarding runs of one broadcast bundle: each run sees the then connected senders
+and has its own set of failing transmissions; the sent list is persisted in between. Returns all
+transmissions in order, each with its outcome. -/
+def broadcastLog (sent : List Nat) : List (List Nat × List Nat) → List (Nat × Bool)
   | [] => []
-  | clas :: later =>
-    let r := filterCLAs sent clas
-    r.1 ++ broadcastHistory r.2 later
+  | (clas, fails) :: later =>
+    let a := broadcastAttempt sent clas fails
+    a.1.map (fun p => (p, !fails.contains p)) ++ broadcastLog a.2 later
+
+/-- **Spec for one forwarding run of a broadcast bundle** (independent of `filterCLAs`): given the
+peers that already had the bundle when it arrived (`had0`) and the peers it was successfully
+handed to in earlier runs (`succ`), the run must hand it to exactly the connected peers that are in
+neither set — each once. So a peer is never served again after a success, and a peer whose
+transmission failed is tried again. -/
+def broadcastRunOk (had0 succ clas sends : List Nat) : Bool :=
+  sends.all (fun p => clas.contains p && !had0.contains p && !succ.contains p) &&
+  clas.all (fun c => had0.contains c || succ.contains c || sends.contains c) &&
+  sends.all (fun p => sends.count p == 1)
 
 /-! ### Spec for link-state reception (independent of `notifyData`) -/
 
